@@ -229,7 +229,8 @@ def rand_subject(rng, maxlen):
 
 
 def xline(cflags, pat, nms, efs, subjs):
-    return "x %d %s %s %s %s" % (cflags, vf.hexs(pat), ",".join(str(n) for n in nms),
+    # `y` = `x` + internal projection (whole pmatch arrays vs the Lean model of the C matcher)
+    return "y %d %s %s %s %s" % (cflags, vf.hexs(pat), ",".join(str(n) for n in nms),
                                  ",".join(str(e) for e in efs), " ".join(vf.hexs(s) for s in subjs))
 
 
@@ -455,13 +456,21 @@ class Runner:
             return None if not (c.startswith("CRASH") or "!" in c) else "obs"
         if c == m or c == "<not-run>":
             return None
-        co, mo = c.split(" ## ")[0], m.split(" ## ")[0]
+        cs, ms = c.split(" ## "), m.split(" ## ")
+        co, mo = cs[0], ms[0]
         if co != mo:
             ct, mt = co.split(" "), mo.split(" ")
-            if len(ct) == len(mt) and ct[0] == "ok" and mt[0] == "ok":
-                if all(a == b or a == "slow" for a, b in zip(ct, mt)):
-                    return None
-            return "obs"
+            if not (len(ct) == len(mt) and ct[0] == "ok" and mt[0] == "ok" and
+                    all(a == b or a == "slow" for a, b in zip(ct, mt))):
+                return "obs"
+        # internal projection: error code, or (y op) the whole pmatch array of every exec as the
+        # Lean model of the C matcher computes it; `?` = one side ran out of time / step budget
+        ci, mi = (cs[1] if len(cs) > 1 else ""), (ms[1] if len(ms) > 1 else "")
+        if ci == mi:
+            return None
+        it, jt = ci.split(" "), mi.split(" ")
+        if len(it) == len(jt) and all(a == b or a == "?" or b == "?" for a, b in zip(it, jt)):
+            return None
         return "int"
 
     def run_x(self, lines, label, nontrivial=True):
@@ -482,6 +491,7 @@ class Runner:
         ph[label] = round(ph.get(label, 0) + _t.time() - t0, 1)
         h["lines"] += len(lines)
         for line, c, m in zip(lines, c_all, m_all):
+            c_all_i = c
             ck.cov["op_lines"] = ck.cov.get("op_lines", 0) + 1
             w = line.split(" ", 3)
             if m == "unsup":
@@ -492,6 +502,11 @@ class Runner:
                 h["err_codes"][code] = h["err_codes"].get(code, 0) + 1
             elif m.startswith("ok"):
                 h["compile_ok"] += 1
+                if " ## " in c:
+                    cint = c.split(" ## ", 1)[1]
+                    c = c.split(" ## ", 1)[0]
+                    h["pmatch_arrays_vs_cmatch_model"] = h.get("pmatch_arrays_vs_cmatch_model", 0) + cint.count(" ") + 1 - cint.count("?")
+                    h["cmatch_out_of_budget"] = h.get("cmatch_out_of_budget", 0) + m.count(" ?") + (1 if m.endswith("## ?") else 0)
                 nt = c.count(" ") - 1 if c.startswith("ok") else 0
                 h["execs"] += nt
                 ns = c.count(" slow")
@@ -504,7 +519,7 @@ class Runner:
                 if nontrivial:
                     ck.distinct((w[1], w[2]))
             ck.count(1 + (c.count(" ") - 1 if c.startswith("ok") else 0))
-            kind = self.differs(c, m)
+            kind = self.differs(c_all_i, m)
             if kind is None:
                 continue
             if kind == "int":
@@ -512,16 +527,17 @@ class Runner:
             if self.nfail >= 6:
                 continue
             self.nfail += 1
-            self.report(line, c, m, kind, label)
+            self.report(line, c_all_i, m, kind, label)
 
     def report(self, line, c, m, kind, label):
         ck = self.ck
         w = line.split(" ")
         best = line
-        if w[0] == "x" and c.startswith("ok") and m.startswith("ok"):
+        if w[0] in ("x", "y") and c.startswith("ok") and m.startswith("ok"):
             # locate the first differing exec and replay it alone
             nms, efs, subjs = w[3].split(","), w[4].split(","), w[5:]
-            ct, mt = c.split(" ")[2:], m.split(" ")[2:]
+            cs, ms = c.split(" ## "), m.split(" ## ")
+            ct, mt = cs[0].split(" ")[2:], ms[0].split(" ")[2:]
             idx = None
             for i in range(max(len(ct), len(mt))):
                 a = ct[i] if i < len(ct) else "<missing>"
@@ -529,6 +545,14 @@ class Runner:
                 if a != b and a != "slow":
                     idx = i
                     break
+            if idx is None and len(cs) > 1 and len(ms) > 1:
+                it, jt = cs[1].split(" "), ms[1].split(" ")
+                for i in range(max(len(it), len(jt))):
+                    a = it[i] if i < len(it) else "<missing>"
+                    b = jt[i] if i < len(jt) else "<missing>"
+                    if a != b and a != "?" and b != "?":
+                        idx = i
+                        break
             if idx is not None and idx < len(subjs) * len(efs) * len(nms):
                 si, rem = divmod(idx, len(efs) * len(nms))
                 ei, ni = divmod(rem, len(nms))
@@ -544,10 +568,10 @@ class Runner:
                         for t in (sb[1:], sb[:-1]):
                             cand2 = " ".join([w[0], w[1], w[2], nms[ni], efs[ei], vf.hexs(t)])
                             c2, m2, _, _, _ = self.single(cand2)
-                            if self.differs(c2, m2) == "obs":
+                            if self.differs(c2, m2) == kind:
                                 sb, best, changed = t, cand2, True
                                 break
-        elif w[0] == "x" and len(w) > 6:
+        elif w[0] in ("x", "y") and len(w) > 6:
             cand = " ".join(w[:6])
             c1, m1, _, _, _ = self.single(cand)
             if self.differs(c1, m1):
@@ -754,7 +778,9 @@ def run(ck):
     hcmd, dcmd = build(ck)
     ck.level = "other"
     ck.cov["explanation"] = (
-        "Exploration with a proved oracle.  Kernel-checked Lean theorems establish that the reference used as oracle is "
+        "Exploration with a proved oracle plus an executable Lean model of the C matcher.  The model of usual_regexec "
+        "(CM.cExec) is compared with the C code on the whole pmatch array of every execution and is proved leftmost-longest "
+        "on parenthesis-free op lists.  Kernel-checked Lean theorems establish that the reference used as oracle is "
         "right: `ends` is sound and complete for the declarative POSIX semantics `Matches` (anchors/flags in context), "
         "`llmatch` is exactly the leftmost-longest overall match (and `none` iff no substring matches), and the parser "
         "models invert the ERE/BRE renderers on the bracket-free fragments.  The C matcher is not proved: regcomp rc/"
@@ -805,7 +831,7 @@ def run(ck):
 
     # ---- corpus (past failures / boundary cases), one op line per case
     corpus = [l for c in vf.corpus_cases(PID) for l in c]
-    rn.run_x([l for l in corpus if l.startswith("x ")], "corpus")
+    rn.run_x(["y " + l[2:] for l in corpus if l.startswith("x ") or l.startswith("y ")], "corpus")
 
     # ---- hand-made malformed / edge patterns, all compile-flag sets
     lines = []
@@ -939,8 +965,14 @@ def run(ck):
     ck.cov["histogram"] = rn.hist
     ck.cov["skipped_slow"] = rn.hist["skipped_slow"]
     ck.cov["partial"] = [
-        "no theorem about the C matcher's algorithm (scan_next/match_group/match_gend/gm_resolve_tie): compared with the proved reference on results",
-        "sub-match offsets: monitored with pmatchOk on the implementation's output and compared with the AT&T table, not proved",
+        "the C matcher's algorithm is transcribed in Lean (lean/Usual/C04/CMatch.lean: scan_next/match_group/match_gend with minok, "
+        "got_full_match/gm_resolve_tie/cmp_gmatches/gmatch_hist_cmp/fill_history/publish_gm) and compared with the C code on the "
+        "whole pmatch array of every execution (internal projection); cmatch_refines_llmatch is proved only as "
+        "cmatch_ops_leftmost_longest_partial: parenthesis-free op lists, against the declarative reading OpsMatch of the op "
+        "lists (rc, leftmost start, longest last_endpos); missing: OpsMatch<->Matches link, pm[0] through publish_gm, groups",
+        "sub-match offsets: pmatchOk_spec / submatch_clause_satisfiable are proved about the reference (the clause is "
+        "satisfiable exactly when a match exists); the values C reports are monitored with pmatchOk, compared with the "
+        "matcher model and with the AT&T table, not proved",
         "parse_render proved for the bracket-free fragments of ERE and BRE (parse_render_ere_partial, "
         "parse_render_bre_partial); bracket expressions (op_class) are modelled and compared with regcomp differentially, "
         "there is no bitmap->bracket renderer to invert",
